@@ -45,6 +45,12 @@ def gen_ctor_args(rng: random.Random, params: Sequence[Param], fresh) -> Tuple[l
   if has_varkw and rng.random() < 0.5:
     for _ in range(rng.randint(1, 2)):
       kwargs[rng.choice(["x", "y", "z"])] = fresh()
+  if has_varkw and rng.random() < 0.15:
+    # legal Python: a keyword named like a positional-only / *args parameter goes to **kwargs
+    cands = [p.name for i, p in enumerate(params)
+             if p.kind == "VarPos" or (p.kind == "PosOnly" and i < len(args))]
+    if cands:
+      kwargs[rng.choice(cands)] = fresh()
   return args, kwargs
 
 
@@ -320,6 +326,8 @@ class Ref:
       name = op[1]
       p = self.by_name.get(name)
       if p is not None and p.kind in ("PosOnly", "VarPos"):
+        if name in self.extra:
+          return self.extra[name]  # a **kwargs entry that happens to be named like that parameter
         raise Reject("positional-only / variadic by name")
       slot = self._slot_of_name(name)
       if slot is not None:
